@@ -154,3 +154,22 @@ def covering(rng, n, factors):
 
 def date_of(trace, t):
     return (trace.init["span0"] + dt.timedelta(days=int(t))).date()
+
+
+def check_initial_pond(spec, trace, acc):
+    """Water ponded before the first step: what the *user* configured for the management in force
+    on the first simulated day - the in-season one when the run starts on the planting date, the
+    fallow one (no bunds unless given) when it starts in a fallow period."""
+    p = trace.init
+    in_season = int(p.get("season0", -1)) == 0
+    fm = (spec.get("fm") if in_season else spec.get("ffm")) or {}
+    want = 0.0
+    if fm.get("bunds") and float(fm.get("z_bund", 0.0)) * 1000.0 > 0.001:
+        want = min(float(fm.get("bund_water", 0.0)), float(fm.get("z_bund", 0.0)) * 1000.0)
+    got = float(p.get("pond_init", 0.0))
+    acc.cov["initial_pond_checks"] += 1
+    if want > 0:
+        acc.cov["initial_pond_nonzero"] += 1
+    if abs(got - want) > 1e-9:
+        acc.add("initial-pond", f"{got!r} mm ponded before the first step; the {'in-season' if in_season else 'fallow'} "
+                f"management configured for that day gives {want!r} mm", dict(got=got, want=want, in_season=in_season))
